@@ -51,6 +51,13 @@ type caseDesc struct {
 	SegC2S     string `json:"seg_c2s"`
 	SegS2C     string `json:"seg_s2c"`
 	Chain      bool   `json:"tunnel_to_tunnel"`
+	// Window: read buffers are short windows of a much larger slice (len << cap), as a parser reusing one big
+	// buffer passes them; the bytes behind the window are a canary.
+	Window bool `json:"read_bufs_are_windows,omitempty"`
+	// PeekUp / PeekDown: the tunnel-to-tunnel relay first reads that many bytes itself (and forwards them) before it
+	// hands both directions to BidirectionalCopy.
+	PeekUp   int `json:"relay_peeks_uplink,omitempty"`
+	PeekDown int `json:"relay_peeks_downlink,omitempty"`
 }
 
 var writeSizes = []int{1, 2, 15, 16, 17, 4095, 4096, 65534, 65535, 65536, 65537, 131071}
@@ -185,6 +192,17 @@ func genCase(e *core.Env, r *core.RNG) caseDesc {
 		d.CBuf = []int{r.Range(1, 70000)}
 		d.SBuf = []int{r.Range(1, 70000)}
 	}
+	// (drawn from a separate stream so that the cases above stay what they were)
+	x := core.NewRNG(int64(r.Uint64()>>1), "c01.extra", 0)
+	d.Window = x.Bool()
+	if d.Chain {
+		if len(d.CWrites) > 0 && x.Bool() {
+			d.PeekUp = x.Pick(1, 10, 100, 5000)
+		}
+		if len(d.SWrites) > 0 && x.Bool() {
+			d.PeekDown = x.Pick(1, 10, 100, 5000)
+		}
+	}
 	return d
 }
 
@@ -195,6 +213,32 @@ type side struct {
 	wErr   error
 	nReads int
 	nZero  int
+	window bool
+	back   []byte
+}
+
+// mkBuf returns a read buffer of n bytes; in window mode it is the front of one reused slice whose capacity exceeds
+// every threshold of the implementation, and check reports whether anything was written just behind the window.
+func (sd *side) mkBuf(n int) (b []byte, check func() bool) {
+	if !sd.window {
+		return make([]byte, n), func() bool { return true }
+	}
+	if cap(sd.back) < n+70000 {
+		sd.back = make([]byte, n+70000)
+	}
+	back := sd.back[:cap(sd.back)]
+	guard := back[n : n+64]
+	for i := range guard {
+		guard[i] = 0xC7
+	}
+	return back[:n], func() bool {
+		for _, x := range guard {
+			if x != 0xC7 {
+				return false
+			}
+		}
+		return true
+	}
 }
 
 // readAll drains c along the given path.
@@ -202,9 +246,13 @@ func readAll(c netio.Conn, path string, bufs []int, sd *side) {
 	switch path {
 	case "writeto", "read+writeto":
 		if path == "read+writeto" {
-			b := make([]byte, min(bufs[0], 4096))
+			b, intact := sd.mkBuf(min(bufs[0], 4096))
 			n, err := c.Read(b)
 			sd.nReads++
+			if n > len(b) || n < 0 || !intact() {
+				sd.err = fmt.Errorf("Read returned n=%d for a buffer of %d (bytes behind the buffer intact: %v)", n, len(b), intact())
+				return
+			}
 			sd.got = append(sd.got, b[:n]...)
 			if err != nil {
 				if err == io.EOF {
@@ -227,12 +275,12 @@ func readAll(c netio.Conn, path string, bufs []int, sd *side) {
 	default:
 		k := 0
 		for {
-			b := make([]byte, bufs[k%len(bufs)])
+			b, intact := sd.mkBuf(bufs[k%len(bufs)])
 			k++
 			n, err := c.Read(b)
 			sd.nReads++
-			if n > len(b) || n < 0 {
-				sd.err = fmt.Errorf("Read returned n=%d for a buffer of %d", n, len(b))
+			if n > len(b) || n < 0 || !intact() {
+				sd.err = fmt.Errorf("Read returned n=%d for a buffer of %d (bytes behind the buffer intact: %v)", n, len(b), intact())
 				return
 			}
 			if n == 0 && err == nil {
@@ -435,6 +483,7 @@ func tunnelCase(e *core.Env, ci int, r *core.RNG, d *caseDesc) {
 		handleErr error
 		srvWErr   error
 	)
+	srv.window, cli.window = d.Window, d.Window
 	server1 := t1.cfg.StreamServer()
 	rS, rC := r2(r, 1), r2(r, 2)
 	var emu sync.Mutex
@@ -522,6 +571,30 @@ func tunnelCase(e *core.Env, ci int, r *core.RNG, d *caseDesc) {
 			if err != nil {
 				setErr(fmt.Errorf("second tunnel dial: %w", err))
 				sc1.Close()
+				return
+			}
+			// a relay that looks at the first bytes itself before it starts copying
+			peek := func(from, to netio.Conn, n int, what string) bool {
+				if n == 0 {
+					return true
+				}
+				b := make([]byte, n)
+				k, err := from.Read(b)
+				if k > 0 {
+					if _, werr := to.Write(b[:k]); werr != nil {
+						setErr(fmt.Errorf("relay %s peek forward: %w", what, werr))
+						return false
+					}
+				}
+				if err != nil && err != io.EOF {
+					setErr(fmt.Errorf("relay %s peek: %w", what, err))
+					return false
+				}
+				return true
+			}
+			if !peek(sc1, cc2, d.PeekUp, "uplink") || !peek(cc2, sc1, d.PeekDown, "downlink") {
+				sc1.Close()
+				cc2.Close()
 				return
 			}
 			_, _, cerr := netio.BidirectionalCopy(sc1, cc2)
